@@ -53,6 +53,7 @@ class ScriptGen:
         self.arrays = []            # (name, type, size)
         self.parrays = []
         self.params = []
+        self.array_params = []      # (name, rows, cols) whole-array template parameters
         self.defs = []              # every name this script defines (vars, loop vars, params)
         self.tdm = False
         self.nmodes = rng.randint(1, 6)
@@ -181,6 +182,7 @@ class ScriptGen:
         if "whole_array_param" in self.f and "templates" in self.f and r.random() < 0.2:
             p = r.choice(self.pool)
             self.defs += [n, p]
+            self.array_params.append((p, rows, cols))
             self.arrays.append((n, t, rows * cols, True))
             return ["%s array %s[%d, %d] =" % (t, n, rows, cols), "    {%s}" % p, ""]
         lines = []
@@ -360,7 +362,8 @@ class ScriptGen:
                 items.append(self.item_loop())
             else:
                 items.append([self.statement()])
-        return {"head": head, "items": items, "defs": list(self.defs), "tdm": self.tdm}
+        return {"head": head, "items": items, "defs": list(self.defs), "tdm": self.tdm,
+                "params": list(self.params), "array_params": list(self.array_params)}
 
 
 def render(script):
